@@ -49,9 +49,9 @@ def build_cases(ctx):
     rng = random.Random(ctx.seed * 104729 + 15)
     cases = G.small_exhaustive()
     n_ex = len(cases)
-    cases += G.fallthrough_family(rng, ctx.pick(1200, 6000))
+    cases += G.fallthrough_family(rng, ctx.pick(1200, 3000))
     n_ft = len(cases) - n_ex
-    for _ in range(ctx.pick(1000, 15000)):
+    for _ in range(ctx.pick(1000, 6000)):
         cases.append(G.random_case(rng))
     seen, out = set(), []
     for c in cases:
@@ -168,8 +168,7 @@ def run(ctx):
         "tally": tally,
         "samples": [{"vs": c["vs"], "args": c["args"], "mode": c["mode"], "spec_pick": verdicts[c["id"]]["pick"]}
                     for c in (cases[n_ex // 2], cases[n_ex + 1], cases[-1])],
-        "not_covered": "more than one generic parameter per variant, non-numeric coercion-free types beyond bool, "
-                       "nat vs int result types are indistinguishable in the interpreter's events (both 64-bit ints)",
+        "not_covered": "more than one generic parameter per variant, non-numeric coercion-free types beyond bool",
     })
     ctx.assumptions += ["TLC", "reference HUGR interpreter (event stream)", "hugr-core validator",
                         "renderer ovl_gen.render; callee names read from Call ops of the compiled entry point"]
